@@ -6,7 +6,7 @@ use solana_address::Address;
 use solana_program_error::ProgramError;
 use solana_program_option::COption;
 use spl_pod::{
-    bytemuck::{pod_bytes_of, pod_from_bytes, pod_maybe_from_bytes, pod_slice_from_bytes, pod_slice_to_bytes},
+    bytemuck::{pod_bytes_of, pod_from_bytes, pod_from_bytes_mut, pod_get_packed_len, pod_maybe_from_bytes, pod_slice_from_bytes, pod_slice_from_bytes_mut, pod_slice_to_bytes},
     option::{Nullable, PodOption},
     primitives::{PodBool, PodI16, PodI64, PodU128, PodU16, PodU32, PodU64},
 };
@@ -232,6 +232,21 @@ pub fn run_c13(ctx: &Ctx) -> Report {
                     rep.violate("cast-slice", "pod_slice_from_bytes must succeed exactly for whole multiples and alias the same bytes", serde_json::json!({"type": stringify!($P), "len": l}).to_string());
                 }
                 rep.case(format!("CSlice {} {} {}", $sz, emit::blob(s), sl.emit(|(k, _, _)| format!("{}", k))), sl.is_ok());
+                // the `_mut` variants and the packed length must agree with the shared ones
+                let mut copy = s.to_vec();
+                let base = copy.as_ptr() as usize;
+                let rm = catch(|| pod_from_bytes_mut::<$P>(&mut copy).map(|p| p as *mut $P as usize - base));
+                if rm.is_ok() != r.is_ok() || matches!(&rm, Res::Ok(o) if *o != 0) {
+                    rep.violate("cast-mut", "pod_from_bytes_mut disagrees with pod_from_bytes", serde_json::json!({"type": stringify!($P), "len": l}).to_string());
+                }
+                let mut copy2 = s.to_vec();
+                let rsm = catch(|| pod_slice_from_bytes_mut::<$P>(&mut copy2).map(|x| x.len()));
+                if rsm.is_ok() != sl.is_ok() || matches!((&rsm, &sl), (Res::Ok(a), Res::Ok((b, _, _))) if a != b) {
+                    rep.violate("cast-slice-mut", "pod_slice_from_bytes_mut disagrees with pod_slice_from_bytes", serde_json::json!({"type": stringify!($P), "len": l}).to_string());
+                }
+                if pod_get_packed_len::<$P>() != $sz {
+                    rep.violate("packed-len", "pod_get_packed_len differs from the type's size", serde_json::json!({"type": stringify!($P)}).to_string());
+                }
             }};
         }
         casts!(PodBool, 1);
